@@ -8,6 +8,7 @@ from ..flow import AbsInt
 from ..rules import decide_states, reaching_defs
 
 ID = "C18"
+ANCHORS = 'annotate.count_annotations,annotate.pairwise_annotations,annotate.pairwise_annotations_spacing,kmers.kmers'.split(",")
 MIN_INSTANCES = 14
 EXPLANATION = (
     "R-GUARD: at each of the four stores into the (a, b, d) count tensor of pairwise_annotations_spacing the distance "
